@@ -24,7 +24,7 @@ def shards(tier, seed):
     from vmon.spec import cdb as S
 
     names = list(S.COMMANDS)
-    out = [{"id": "seq-pairs", "kind": "pairs"}, {"id": "alias", "kind": "alias"}]
+    out = [{"id": "seq-pairs", "kind": "pairs"}, {"id": "alias", "kind": "alias"}, {"id": "hashseeds", "kind": "hashseeds", "probe": str(seed)}]
     if tier == "quick":
         out.append({"id": "seq-triples", "kind": "triples", "n": 2000, "firsts": None})
         rng = random.Random("c09pairs:%s" % seed)
@@ -237,6 +237,9 @@ def run(shard, ctx):
         sched_runs(ctx, S, shard, base, args)
     elif kind == "stress":
         stress(ctx, S, shard, base, args)
+    elif kind == "hashseeds":
+        hash_seed_runs(ctx, shard)
+        after_fault_in_other_thread(ctx, S)
     elif kind == "cold":
         cold_runs(ctx, shard)
 
@@ -524,6 +527,61 @@ def alias_checks(ctx, S):
                 ctx.fail("C09:decode.depends_on_earlier_decode.%s" % f.name, "decoding the same %s response again after a %s response was decoded gives another result" % (f.name, g.name),
                          {"format": f.name, "then": g.name, "response": bytes(b1)})
 
+    # responses of equal length that differ in a few equally spaced bytes whose differences cancel (+1 -2 +1, +1 -1 -1 +1: same
+    # byte sum, same position-weighted sum) or that have two bytes swapped: what simple checksums cannot tell apart.  A response
+    # decoded right after its neighbour decodes as it did before
+    for f in fmts:
+        for _ in range(12):
+            v1 = max((f.gen(rng) for _i in range(3)), key=lambda x: len(f.encode(x)))
+            b1 = bytearray(f.encode(v1))
+            if len(b1) < 12:
+                continue
+            b2 = bytearray(b1)
+            pat = rng.choice([(1, -2, 1), (1, -1, -1, 1), (-1, 2, -1), "swap"])
+            d = rng.choice([1, 2, 3, 4, 8, 12, 16, 20, 24])
+            if pat == "swap":
+                i, j = rng.randrange(4, len(b1)), rng.randrange(4, len(b1))
+                b2[i], b2[j] = b2[j], b2[i]
+            else:
+                starts = [i for i in range(4, len(b1) - d * (len(pat) - 1)) if all(0 <= b1[i + k * d] + pat[k] <= 255 for k in range(len(pat)))]
+                if not starts:
+                    continue
+                i = rng.choice(starts)
+                for k in range(len(pat)):
+                    b2[i + k * d] += pat[k]
+            if b2 == b1:
+                continue
+
+            def dec(b):
+                try:
+                    return repr(f.lib_decode(bytes(b), v1))
+                except Exception as e:  # noqa: BLE001
+                    return "raises %s" % type(e).__name__
+
+            # (in between: a well-formed response of another length, so that neither neighbour is "the one decoded last")
+            vf = v1
+            for _t in range(6):
+                vf = f.gen(rng)
+                if len(f.encode(vf)) != len(b1):
+                    break
+            flush = bytes(f.encode(vf)) if len(f.encode(vf)) != len(b1) else bytes(b1) + bytes(8)
+            for seq in (("f", "1"), ("f", "2")):
+                try:
+                    f.lib_decode(flush, vf)
+                except Exception:  # noqa: BLE001
+                    pass
+                if seq[1] == "1":
+                    first = dec(b1)
+                else:
+                    other = dec(b2)
+            again = dec(b1)
+            other_again = dec(b2)
+            ctx.case(("neighbour", f.name, bytes(b1), bytes(b2)), True)
+            ctx.count("checksum_neighbours_decoded")
+            if again != first or other_again != other:
+                ctx.fail("C09:decode.depends_on_earlier_decode.%s" % f.name, "a %s response decoded right after a response of equal length and equal byte sums decodes differently than before" % f.name,
+                         {"format": f.name, "response": bytes(b1), "neighbour": bytes(b2)})
+
     for fname, f in D.FORMATS.items():
         if not f.builder:
             continue
@@ -721,6 +779,173 @@ def one_schedule(ctx, S, sch, progs, sched, base, args, count=True):
     return r
 
 
+def after_fault_in_other_thread(ctx, S):
+    """one thread gets the library's refusals (an inconsistent TransportID, unknown descriptor keys, a block transfer without
+    block size, an unknown service action ...), catches them and stays alive outside the library; another thread then builds
+    every command and decodes every format: it finishes, with what it gets alone.  A thread that never comes back while nothing
+    else runs is stuck on something the first thread left behind (its stack is reported)"""
+    import sys
+    import threading
+    import time
+    import traceback
+
+    import pyscsi.pyscsi.scsi_enum_command as E
+
+    from vmon import harness
+    from vmon.spec import datain as D, dataout as DO
+
+    rng = random.Random("c09fault")
+    solo = {}
+    jobs = []
+    for c in S.COMMANDS.values():
+        a = DO.GEN[c.custom](rng)[0] if c.custom else harness.random_args(c, rng, cap=2048)
+        jobs.append((c.name, (lambda c=c, a=a: (lambda cmd: bytes(cmd.cdb) + b"/" + bytes(cmd.dataout))(harness.construct(c, c.sets[0], DO.fresh(a) if c.custom else dict(a))))))
+    for name, f in D.FORMATS.items():
+        v = f.gen(rng)
+        b = bytes(f.encode(v))
+        jobs.append(("decode:" + name, (lambda f=f, b=b, v=v: repr(f.lib_decode(b, v)))))
+    for name, job in jobs:
+        try:
+            solo[name] = job()
+        except Exception as e:  # noqa: BLE001
+            solo[name] = "raises %s" % type(e).__name__
+
+    def refusals():
+        """calls that the library refuses, of every family"""
+        from pyscsi.pyscsi.scsi_cdb_testunitready import TestUnitReady
+        from pyscsi.pyscsi.scsi_opcode import OpCode
+
+        pro = S.COMMANDS["PersistentReserveOut"]
+        out = []
+        for tid in ({"protocol_id": 5, "tpid_format": 0, "iscsi_name": "iqn.2003-01.org.example:x", "iscsi_initiator_session_id": "23d000000"},
+                    {"protocol_id": 5, "tpid_format": 1, "iscsi_name": "iqn.2003-01.org.example:x"}, {"protocol_id": 5}, {"protocol_id": 0x0E}, {}, None, 7):
+            out.append(lambda tid=tid: harness.construct(pro, "spc", {"service_action": 7, "scope": 0, "pr_type": 1, "_kwargs": {"reservation_key": 1, "service_action_reservation_key": 2, "relative_target_port_id": 1, "transport_id": tid}}))
+            out.append(lambda tid=tid: harness.construct(pro, "spc", {"service_action": 0, "scope": 0, "pr_type": 1, "_kwargs": {"reservation_key": 1, "service_action_reservation_key": 2, "spec_i_pt": 1, "transport_ids": [tid]}}))
+        for cname in ("ExtendedCopy4", "ExtendedCopy5"):
+            c = S.COMMANDS[cname]
+            a, _e = DO.GEN[c.custom](rng, ("counts", 1, 1, 0))
+            lk = "target_descriptor_list" if cname.endswith("4") else "cscd_descriptor_list"
+            for bad in ("key", "code", "segcode"):
+                a2 = DO.fresh(a)
+                if bad == "key":
+                    a2["_kwargs"][lk][0]["bogus"] = 1
+                elif bad == "code":
+                    a2["_kwargs"][lk][0]["descriptor_type_code"] = 0x55
+                else:
+                    a2["_kwargs"]["segment_descriptor_list"][0]["descriptor_type_code"] = 0x77
+                out.append(lambda c=c, a2=a2: harness.construct(c, "spc", a2))
+        for cname in ("Read10", "Write16", "WriteSame10"):
+            c = S.COMMANDS[cname]
+            a = dict(harness.random_args(c, rng, cap=2048), blocksize=0)
+            out.append(lambda c=c, a=a: harness.construct(c, c.sets[0], a))
+        out.append(lambda: TestUnitReady(OpCode("X", 0xC5, {})))
+        out.append(lambda: harness.make_facade(harness.Recorder(E.spc)).persistentreservein(9))
+        for name, f in D.FORMATS.items():
+            out.append(lambda f=f: f.lib_decode(b"\xff" * 5, f.gen(random.Random(1))))
+            if f.builder:
+                out.append(lambda f=f: f.lib_build({"unexpected": object()}))
+                out.append(lambda f=f: f.lib_build(None))
+        return out
+
+    parked = threading.Event()
+    release = threading.Event()
+    stats = {"refused": 0, "accepted": 0}
+
+    def first():
+        for call in refusals():
+            try:
+                call()
+                stats["accepted"] += 1
+            except Exception:  # noqa: BLE001
+                stats["refused"] += 1
+        parked.set()
+        release.wait(600)
+
+    got = {}
+    progress = {"at": None}
+
+    def second():
+        for name, job in jobs:
+            progress["at"] = name
+            try:
+                got[name] = job()
+            except Exception as e:  # noqa: BLE001
+                got[name] = "raises %s" % type(e).__name__
+        progress["at"] = "done"
+
+    t1 = threading.Thread(target=first, daemon=True)
+    t1.start()
+    if not parked.wait(300):
+        ctx.inconclusive_because("the refusing thread did not finish")
+        release.set()
+        return
+    ctx.count("refusals_in_first_thread", stats["refused"])
+    t2 = threading.Thread(target=second, daemon=True)
+    t2.start()
+    t2.join(60)
+    ctx.case(("after-fault-in-other-thread",), True)
+    if t2.is_alive():
+        # nothing else is running: the first thread is parked outside the library.  Sample where the second one is, twice
+        def where():
+            fr = sys._current_frames().get(t2.ident)
+            return "".join(traceback.format_stack(fr)[-4:]) if fr is not None else ""
+
+        w1 = where()
+        time.sleep(5)
+        w2 = where()
+        if w1 == w2 and progress["at"] != "done" and t2.is_alive():
+            ctx.fail("C09:thread_stuck_after_refusal_in_other_thread", "after another (still living) thread had %d requests refused, a thread building %s never came back; it waits at:\n%s"
+                     % (stats["refused"], progress["at"], w2[-600:]), {"stuck_at": progress["at"]})
+        else:
+            ctx.inconclusive_because("second thread slow but moving")
+        release.set()
+        return
+    release.set()
+    ctx.count("jobs_after_fault_in_other_thread", len(jobs))
+    for name, _job in jobs:
+        if got.get(name) != solo[name]:
+            ctx.fail("C09:differs_after_refusal_in_other_thread.%s" % name.split(":")[0], "%s gives another result after another thread had requests refused" % name, {"job": name})
+            break
+
+
+def hash_seed_runs(ctx, shard):
+    """'repeating a call with equal inputs yields equal bytes' -- also in the next run of the program: the same builds and decodes
+    (every command, every format, values padded and unpadded, caller layouts with overlapping views) in fresh interpreters whose
+    str hashes are salted differently print the same lines"""
+    import os
+    import subprocess
+    import sys
+
+    outs = {}
+    for hs in ("0", "1", "2", "3", "5", "8", "13", "4294967295", "random"):
+        env = dict(os.environ, PYTHONHASHSEED=hs)
+        try:
+            p = subprocess.run([sys.executable, "-B", "-m", "vmon.hashprobe", shard.get("probe", "0")], env=env, stdout=subprocess.PIPE, stderr=subprocess.PIPE, timeout=300)
+        except subprocess.TimeoutExpired:
+            ctx.inconclusive_because("hash seed probe: watchdog fired")
+            return
+        if p.returncode != 0:
+            ctx.inconclusive_because("hash seed probe failed: %s" % p.stderr.decode(errors="replace")[-300:])
+            return
+        outs[hs] = p.stdout.decode().splitlines()
+        ctx.count("hash_seed_processes")
+    base = outs["0"]
+    ctx.count("hash_seed_lines_compared", len(base) * (len(outs) - 1))
+    if len(base) < 200:
+        ctx.inconclusive_because("hash seed probe printed only %d lines" % len(base))
+        return
+    for hs, lines in outs.items():
+        ctx.case(("hashseed", hs, shard.get("probe")), True)
+        for a, b in zip(base, lines):
+            if a != b:
+                label = a.split(" ")[0]
+                ctx.fail("C09:output_depends_on_hash_seed.%s" % ":".join(label.split(":")[:2]), "%s differs between interpreters started with PYTHONHASHSEED=0 and =%s: %s... / %s..." % (label, hs, a[:90], b[:90]),
+                         {"line": label, "hash_seeds": ["0", hs]})
+                break
+        if len(lines) != len(base):
+            ctx.fail("C09:output_depends_on_hash_seed.line_count", "%d lines with PYTHONHASHSEED=%s, %d with 0" % (len(lines), hs, len(base)), {"hash_seeds": ["0", hs]})
+
+
 def cold_runs(ctx, shard):
     """single-preemption schedules, each in a fresh interpreter, so that first-use races are reachable"""
     import json
@@ -806,7 +1031,7 @@ def stress(ctx, S, shard, base, args):
 
 def finalize(merged, tier):
     c = merged["counters"]
-    for k in ("sequential_histories", "scheduled_runs", "interleavings_distinct_from_serial", "reuse_histories", "cold_start_runs", "discarded_buffer_histories"):
+    for k in ("sequential_histories", "scheduled_runs", "interleavings_distinct_from_serial", "reuse_histories", "cold_start_runs", "discarded_buffer_histories", "hash_seed_processes"):
         if c.get(k, 0) == 0:
             merged["inconclusive"].append("monitor never reached: %s" % k)
     return {"distinct_interleavings": c.get("interleavings_distinct_from_serial", 0)}
@@ -824,7 +1049,9 @@ def replay(rec, ctx):
             base[n] = observe(S.COMMANDS[n], args[n])[1]
         except Exception:  # noqa: BLE001
             base[n] = None
-    if "history" in w:
+    if "hash_seeds" in w:
+        hash_seed_runs(ctx, {"probe": str(rec.get("seed", 0))})
+    elif "history" in w:
         seq_history(ctx, S, base, args, tuple(w["history"]))
     elif "programs" in w:
         from vmon.mon.sched import Scheduler
